@@ -209,18 +209,21 @@ func c05Filters(thorough bool) []*bt.Filter {
 			}
 		}
 	}
-	if thorough {
-		// depth 3 over the whole 21-leaf basis, depth 4 over the 8-leaf basis
-		for _, a := range b20 {
-			for _, b := range b20 {
-				for _, d := range b20 {
-					fs = append(fs, &bt.Filter{Kind: "chain", Subs: []*bt.Filter{a, b, d}})
-					fs = append(fs, &bt.Filter{Kind: "interleave", Subs: []*bt.Filter{a, b, d}})
-					fs = append(fs, &bt.Filter{Kind: "cond", Pred: a, True: b, False: d})
+	// depth 3 over the whole 21-leaf basis (both tiers)
+	for _, a := range b20 {
+		for _, b := range b20 {
+			for _, d := range b20 {
+				fs = append(fs, &bt.Filter{Kind: "chain", Subs: []*bt.Filter{a, b, d}})
+				fs = append(fs, &bt.Filter{Kind: "interleave", Subs: []*bt.Filter{a, b, d}})
+				fs = append(fs, &bt.Filter{Kind: "cond", Pred: a, True: b, False: d})
+				if thorough {
 					fs = append(fs, &bt.Filter{Kind: "chain", Subs: []*bt.Filter{{Kind: "interleave", Subs: []*bt.Filter{a, b}}, d}})
 				}
 			}
 		}
+	}
+	if thorough {
+		// depth 4 over the 8-leaf basis
 		for _, a := range b8 {
 			for _, b := range b8 {
 				for _, d := range b8 {
